@@ -292,8 +292,8 @@ PROPS["C16"] = dict(
 
 PROPS["C02"] = dict(
     title="Untargeted content passes through a build unchanged (frame / type fidelity)",
-    modules=["Kust.Props.C02", "Kust.Props.C02b"],
-    theorems=["Kust.C02.text_without_dollar_untouched", "Kust.C02.expand_no_dollar",
+    modules=["Kust.Props.C02", "Kust.Props.C02b", "Kust.Props.C14d"],
+    theorems=["Kust.C02.text_without_dollar_untouched", "Kust.C02.expand_no_dollar", "Kust.C14.filter_denotes",
               "Kust.C02.filter_id", "Kust.C02.gvk_mismatch_untouched", "Kust.C02.setter_keeps_string", "Kust.C02.setter_leaves_safe_plain",
               "Kust.C02.set_entry_new", "Kust.C02.footprints", "Kust.C02.tables_paths_wellformed", "Kust.C02.pathGet_plain",
               "Kust.Fns.pathGet_nocreate_doc"],
